@@ -515,7 +515,9 @@ func TestChainContradiction(t *testing.T) {
 					}
 					A.tip++
 					A.tipMHP = h.MHP
-					maxGen[g] = h.H
+					if h.H > maxGen[g] { // the LARGEST height ever generated (a validator back from a longer branch keeps the larger value)
+						maxGen[g] = h.H
+					}
 					lastHdr[g] = h
 					chainA = append(chainA, h)
 					hist = append(hist, []any{0, g, h.H, h.MHG, h.MHP})
